@@ -42,7 +42,7 @@ var applyCount int
 // apply sets every package-level option through the exported setters.
 func (o xOpts) apply() {
 	applyCount++
-	v := applyCount
+	v := int(hash64(fmt.Sprint("apply", applyCount)) % 1024) // decorrelated from the apply / restore alternation of the callers
 	// a PRE-HISTORY every fourth time: other option values are in force and documents with the generators' names and
 	// values are decoded before the requested options are set.  Nothing of it may survive (no cache keyed by name, tag
 	// or text may outlive the options it was filled under: seeds C01-1, C01-5, C14-2, C14-6, C10-2).
@@ -83,13 +83,7 @@ func (o xOpts) apply() {
 		mxj.XmlDefaultEmptyElemSyntax()
 	}
 	mxj.XmlCheckIsValid(o.Chk)
-	switch v % 3 {
-	case 0:
-		mxj.XMLEscapeCharsDecoder(false)
-		mxj.XMLEscapeChars(o.Esc)
-		if o.EscDec {
-			mxj.XMLEscapeCharsDecoder(true)
-		}
+	switch v % 4 {
 	case 1:
 		// the decoder switch first; encoder escaping through the argument-less toggle from a known state
 		mxj.XMLEscapeCharsDecoder(false)
@@ -103,8 +97,12 @@ func (o xOpts) apply() {
 		mxj.XMLEscapeChars(o.Esc)
 		if o.EscDec {
 			mxj.XMLEscapeCharsDecoder(true)
-			mxj.XMLEscapeChars() // documented: ignored while decoder-side escaping is on
-			mxj.XMLEscapeChars(true)
+			// documented: a request to switch encoder-side escaping on is ignored while decoder-side escaping is on
+			if v%4 == 2 {
+				mxj.XMLEscapeChars()
+			} else if v%4 == 3 {
+				mxj.XMLEscapeChars(true)
+			}
 		}
 	}
 	mxj.SetGlobalKeyMapPrefix(o.KP)
@@ -165,7 +163,9 @@ var textPool = []string{"x", "hello world", " u ", "1", "2.5", "true", "T", "NaN
 	"<&>\"'", "a&amp;b", "&#x41;", "é€", "l1\nl2", "\ttab", "]]>", "<![CDATA[", "0x1F", "007", "-0", "9223372036854775808", "false", "Infinity",
 	"-9223372036854775808", "18446744073709551615", "-1234567890123456789", "00000000000000000042", "9223372036854775807", "18446744073709551616", "",
 	// Unicode white space that is NOT in the decoder's trim set (seed C01-3: strings.TrimSpace instead of Trim(trimRunes))
-	"\u00a0x\u00a0", "\u2003y", "z\u0085", "\u3000", " \u00a0 w \u2028"}
+	"\u00a0x\u00a0", "\u2003y", "z\u0085", "\u3000", " \u00a0 w \u2028",
+	// an escapable character FOLLOWED by multi-byte characters (seeds C01-6, C03-1, C05-2: byte / rune confusion in escapeChars)
+	"th\u00e9 & caf\u00e9", "<\u00e9>\u20ac", "x'\u20ac\"\u00fc"}
 
 type docCfg struct {
 	maxDepth  int
